@@ -7,8 +7,9 @@ Driver commands of properties C04 and C15 (core Lean only).  Command names start
   c04.q     <kind> <cfg> <recs> <phase> <strategy> <qs> -> Chunks answers; phase pre | rt | merged
 
   kind  bai | csi | tbx
-  cfg   bai: -      csi: minShift,depth,version,auxhex      tbx: format,zb,nc,bc,ec,meta,skip,namehex/namehex/…
-  recs  rid,start,end,flags,cb,ce;…   flags: 1 placed, 2 mapped, 4 mate-unmapped (bai)
+  cfg   bai: - or the query-time MergeStrategy (identity|adjacent|squash|compress:n)      csi: minShift,depth,version,auxhex      tbx: format,zb,nc,bc,ec,meta,skip,namehex/namehex/…
+  recs  rid,start,end,flags,cb,ce;…   flags: 1 placed, 2 mapped, 4 mate-unmapped (bai); the element `S` = the index
+        is written once at this point (sort() in place): a second-use history
   qs    rid,beg,end;…
 -/
 import Hts.Drv.Util
